@@ -246,7 +246,7 @@ class DBOSIdleReleaseDecorator(BaseRuntimeDecorator):
 
             # Set idle_since NOW — after the workflow is fully released
             await self._store.update_handler_status(
-                run_id, status="running", idle_since=datetime.now(timezone.utc)
+                run_id, idle_since=datetime.now(timezone.utc)
             )
 
             logger.info(f"Marked handler as released [run_id={run_id}]")
@@ -354,10 +354,10 @@ class DBOSIdleReleaseDecorator(BaseRuntimeDecorator):
             serializer=serializer,
         )
 
-        handler.status = "running"
-        handler.updated_at = datetime.now(timezone.utc)
-        handler.idle_since = None
-        await self._store.update(handler)
+        # Only clear the idle marker: writing back the snapshot read above (or
+        # forcing status="running") could overwrite a terminal status the new run
+        # has already recorded.
+        await self._store.update_handler_status(run_id, idle_since=None)
 
         logger.info(f"Resumed DBOS workflow [run_id={run_id}]")
         return run_id, new_adapter
